@@ -298,20 +298,32 @@ def r4_routing(ctx):
     lp = loops[0]
     var = path_of(lp.target)
     call = None
-    for s in lp.body:
-        for c in A.calls_in(s):
-            if A.call_target(c)[1] == 'is_syntax_valid':
-                call = (s, c)
+    for s in ast.walk(lp):
+        if isinstance(s, ast.stmt) and not isinstance(s, (ast.If, ast.For, ast.While, ast.Try, ast.With)):
+            for c in A.calls_in(s):
+                if A.call_target(c)[1] == 'is_syntax_valid':
+                    call = (s, c)
     if call is None:
         raise AnalysisError('segment_if.is_valid: call of is_syntax_valid not found')
     s, c = call
+    # every note of the segment is evaluated: no path through an iteration avoids the call
+    from ..cfg import skips_in_iteration
+    g = ctx.cfg(fn)
+    skip = skips_in_iteration(g, lp, lambda nd: any(x is c for x in g.walk_exprs(nd)))
+    yield Ob('map_if:segment_if.is_valid every syntax note is evaluated', skip is None, ctx.floc(fn, lp),
+             '' if skip is None else 'an iteration over self.syntax can end without calling is_syntax_valid (through line %s): '
+             'that note is never checked' % [getattr(n_, 'lineno', None) for n_ in skip][-2:-1])
+    # the statements that follow the call in the same block handle its result
+    blk_owner = A.parent(s)
+    blk = next(b_ for b_ in (getattr(blk_owner, 'body', None), getattr(blk_owner, 'orelse', None)) if isinstance(b_, list) and s in b_)
+    lp_body = blk
     ok = len(c.args) == 2 and path_of(c.args[0]) == 'seg_data' and path_of(c.args[1]) == var
     yield Ob('map_if:segment_if.is_valid is_syntax_valid(seg_data, note)', ok, ctx.floc(fn, c),
              '' if ok else 'arguments are %s' % [norm(a) for a in c.args])
     if not (isinstance(s, ast.Assign) and isinstance(s.targets[0], ast.Tuple) and len(s.targets[0].elts) == 2):
         raise AnalysisError('segment_if.is_valid: result of is_syntax_valid is not unpacked into two names')
     res = path_of(s.targets[0].elts[0])
-    ifs = [x for x in lp.body if isinstance(x, ast.If)]
+    ifs = [x for x in lp_body if isinstance(x, ast.If)]
     fail_if = None
     for x in ifs:
         t = x.test
@@ -320,7 +332,7 @@ def r4_routing(ctx):
     if fail_if is None:
         raise AnalysisError('segment_if.is_valid: `if not %s` not found' % res)
     # ele_error only under the failure branch
-    stray = [c2 for st in lp.body if st is not fail_if for c2 in A.calls_in(st) if A.call_target(c2)[1] == 'ele_error']
+    stray = [c2 for st in lp_body if st is not fail_if for c2 in A.calls_in(st) if A.call_target(c2)[1] == 'ele_error']
     stray += [c2 for st in fail_if.orelse for c2 in A.calls_in(st) if A.call_target(c2)[1] == 'ele_error']
     yield Ob('map_if:segment_if.is_valid satisfied note reports nothing', not stray, ctx.floc(fn, fail_if),
              '' if not stray else 'ele_error outside the failure branch at line %d' % stray[0].lineno)
